@@ -157,6 +157,25 @@ func replay(b Behaviour, w *trace.Writer) (err error) {
 		return fmt.Errorf("behaviour %d: the receiving layer never called Receive on its inner swarm", b.ID)
 	}
 
+	// Fragments handed to the receiver are logged lazily: a "feed" event lists every fragment whose Feed
+	// was CALLED since the previous one, and is written before the next delivery (and at the end), so a
+	// delivery is always preceded in the log by exactly the fragments handed over before it.
+	var fmu sync.Mutex
+	var pending []Frag
+	noteFeed := func(fs []Frag) {
+		fmu.Lock()
+		pending = append(pending, fs...)
+		fmu.Unlock()
+	}
+	flushFeed := func() {
+		fmu.Lock()
+		if len(pending) > 0 {
+			w.Emit(ev{"ev": "feed", "beh": b.ID, "frags": pending})
+			pending = nil
+		}
+		fmu.Unlock()
+	}
+
 	// the application on top of the receiving layer
 	var mu sync.Mutex
 	counts := map[[2]int]int{}
@@ -173,6 +192,7 @@ func replay(b Behaviour, w *trace.Writer) (err error) {
 						counts[[2]int{rs[0][0], rs[0][1]}]++
 					}
 					mu.Unlock()
+					flushFeed()
 					w.Emit(ev{"ev": "deliver", "beh": b.ID, "src": m.Src.N, "runs": rs, "bytes": len(m.Payload)})
 				}); err != nil {
 					return
@@ -226,7 +246,7 @@ func replay(b Behaviour, w *trace.Writer) (err error) {
 		if len(have) == 0 {
 			continue
 		}
-		w.Emit(ev{"ev": "feed", "beh": b.ID, "frags": have})
+		noteFeed(have)
 		if len(have) == 1 {
 			if err := dstNode.Feed(ctx, pkts[have[0]]); err != nil {
 				return fmt.Errorf("behaviour %d: feed: %v", b.ID, err)
@@ -246,6 +266,7 @@ func replay(b Behaviour, w *trace.Writer) (err error) {
 			return fmt.Errorf("behaviour %d: receiving layer did not become idle (a receive worker is stuck or died)", b.ID)
 		}
 	}
+	flushFeed()
 	mu.Lock()
 	deliv := [][3]int{}
 	for k, c := range counts {
